@@ -299,6 +299,8 @@ def classify(exc):
         return [4, 0]
     if isinstance(exc, OSError):
         return [4, 1 if exc.errno == _errno.EBADF else 2]
+    if isinstance(exc, Exception):
+        return [9]          # anything else out of recv_packet (ValueError, TypeError, ...): never expected
     raise exc
 
 
@@ -910,6 +912,11 @@ async def _run_e2e(inp):
             out.append(r)
             if r == [2]:
                 break
+        if out and out[-1] == [2]:
+            # once reported, always reported: one more call after end-of-stream
+            extra = loop.create_task(target.recv_packet())
+            await asyncio.wait([extra], timeout=None)
+            out.append(outcome(extra))
         return out
     finally:
         for t in tasks:
@@ -1297,19 +1304,19 @@ def _oracle_e2e(inp):
     if inp[3:] and any(len(a) > 1 and len(a[1]) > 64 for t in turns for a in t if a[0] == 2):
         kind, cfg, _dec, orc = case[:4]
         stream = _stream_of(orc)
-        exp = [[0, f] for f in stream.split(cfg[0])[:-1]] + [[2]]
+        exp = [[0, f] for f in stream.split(cfg[0])[:-1]] + [[2], [2]]
         got = run_impl(inp)
         if got != exp:
-            return (f"real asyncio transport (flow control): the calls delivered {len(got) - 1} results ending with "
-                    f"{got[-1:] } instead of the {len(exp) - 1} packets sent then end-of-stream")
+            return (f"real asyncio transport (flow control): the calls delivered {len(got)} results ending with "
+                    f"{got[-1:] } instead of the {len(exp) - 2} packets sent then end-of-stream (twice)")
         return None
     kind, cfg, _dec, orc, _calls, _mode, bufsize, api, impl = case[:9]
     stream = _stream_of([it for it in orc if it[0] != 3])
     expected, _left = sc.spec_events_py(kind, cfg, impl, stream)
-    exp = [[0, e[1]] if e[0] == 0 else [1, 1] for e in expected] + [[2]]
+    exp = [[0, e[1]] if e[0] == 0 else [1, 1] for e in expected] + [[2], [2]]
     got = run_impl(inp)
     if got != exp:
-        return (f"real asyncio transport: the calls that returned delivered {got}, the peer sent {exp[:-1]} then closed "
+        return (f"real asyncio transport: the calls that returned delivered {got}, the peer sent {exp[:-2]} then closed "
                 f"(cancelled calls must not lose or duplicate anything)")
     return None
 
